@@ -392,7 +392,7 @@ Section InterpProofs.
     replace (Qlt_bool q 0) with false by (symmetry; apply Qlt_bool_false; lra).
     replace (Qlt_bool 1 q) with false by (symmetry; apply Qlt_bool_false; lra).
     replace (Qeq_bool (h_count h) 0) with false by (symmetry; apply Qeq_bool_false; fold N; lra).
-    rewrite Ws. simpl orb. fold N. fold bs.
+    rewrite Ws. simpl orb. simpl andb. cbv beta iota. fold N. fold bs.
     destruct (Qlt_bool q (1 # 2)) eqn:Eh.
     - (* forward *)
       qb.
@@ -412,6 +412,7 @@ Section InterpProofs.
       unfold qvalue. destruct (qadjust h b) as [r|[l u]]; [reflexivity|].
       replace (Qlt_bool N c) with false by (symmetry; apply Qlt_bool_false; lra).
       replace (Qlt_bool c (q * N)) with false by (symmetry; apply Qlt_bool_false; lra).
+      cbv beta iota.
       replace (Qeq_bool (bc b) 0) with false by (symmetry; apply Qeq_bool_false; lra).
       reflexivity.
     - (* from the top *)
@@ -433,6 +434,7 @@ Section InterpProofs.
       unfold qvalue. destruct (qadjust h b) as [r|[l u]]; [reflexivity|].
       replace (Qlt_bool N c) with false by (symmetry; apply Qlt_bool_false; lra).
       replace (Qlt_bool c ((1 - q) * N)) with false by (symmetry; apply Qlt_bool_false; lra).
+      cbv beta iota.
       replace (Qeq_bool (bc b) 0) with false by (symmetry; apply Qeq_bool_false; lra).
       reflexivity.
   Qed.
